@@ -448,6 +448,98 @@ def seq_tag_history(rep, rng, lines=None, expect=None):
     rep.case(('seq-tag-history', tuple(hist)), reuse, sample=replay)
 
 
+def seq_tag_list_linearizable(rep):
+    """The reader removes a consumer tag (broker cancel; no lock) while an application thread adds another one (inside
+    consume, under the channel lock) - and every other pairing of add/remove on one channel.  Each list operation is atomic
+    under the GIL, so the other thread can run between any two of them: with the other operation injected at every such
+    point the outcome must be that of the two operations in some order.  Deterministic, no threads."""
+    from amqpstorm.base import BaseChannel
+
+    class HookList(list):
+        hook = None
+
+        def _fire(self, what):
+            h, HookList.hook = HookList.hook, None
+            if h is not None:
+                h(what)
+                HookList.hook = h
+
+        def __contains__(self, x):
+            r = list.__contains__(self, x)
+            self._fire('contains')
+            return r
+
+        def __iter__(self):
+            for x in list.__iter__(self):
+                yield x
+            self._fire('iterated')
+
+        def remove(self, x):
+            list.remove(self, x)
+            self._fire('removed')
+
+        def append(self, x):
+            list.append(self, x)
+            self._fire('appended')
+
+        def copy(self):
+            r = list.copy(self)
+            self._fire('copied')
+            return r
+
+        def __getitem__(self, i):
+            r = list.__getitem__(self, i)
+            self._fire('getitem')
+            return r
+
+    pairs = [(('remove', 'a'), ('add', 'b')), (('add', 'b'), ('remove', 'a')), (('remove', 'a'), ('remove', 'c')),
+             (('add', 'b'), ('add', 'd')), (('remove', None), ('add', 'b'))]
+    for first, second in pairs:
+        for at in range(0, 6):
+            ch = BaseChannel(1)
+            ch._consumer_tags = HookList(['a', 'c'])
+            fired = {'n': 0, 'done': False}
+
+            def apply(op):
+                if op[0] == 'add':
+                    ch.add_consumer_tag(op[1])
+                else:
+                    ch.remove_consumer_tag(op[1])
+
+            def hook(what):
+                if fired['n'] == at and not fired['done']:
+                    fired['done'] = True
+                    apply(second)
+                fired['n'] += 1
+            HookList.hook = hook
+            try:
+                apply(first)
+            finally:
+                HookList.hook = None
+            if not fired['done']:
+                apply(second)          # the window does not exist in this code: plain sequential order
+            got = sorted(ch.consumer_tags)
+            # the two sequential orders
+            outcomes = []
+            for order in ((first, second), (second, first)):
+                ref = ['a', 'c']
+                for op in order:
+                    if op[0] == 'add':
+                        if op[1] not in ref:
+                            ref.append(op[1])
+                    elif op[1] is None:
+                        ref = []
+                    elif op[1] in ref:
+                        ref.remove(op[1])
+                outcomes.append(sorted(ref))
+            replay = {'kind': 'seq-tag-list', 'first': list(first), 'second': list(second), 'at': at}
+            rep.case(('seq-tag-list', first, second, at), True, sample=replay)
+            if got not in outcomes:
+                rep.violation('C14/tag-list-update-lost', '%s with %s running in between (after list operation %d) left the tags %r; in either '
+                              'order the two give %r' % (first, second, at, got, outcomes), replay)
+                return
+
+
 def check(rep):
     import json
     rng = random.Random(common.seed() * 4201 + 14)
@@ -461,6 +553,7 @@ def check(rep):
         'KeyError on a delivery that overtakes the callback binding is a recorded finding',
     ]
     tlines, texpect = [], []
+    seq_tag_list_linearizable(rep)
     for _ in range(10 if not thorough else 100):
         seq_late_reply(rep, rng)
         for _k in range(8):
@@ -571,6 +664,11 @@ def check(rep):
 
 def replay(data):
     r = data['replay']
+    if r.get('kind') == 'seq-tag-list':
+        rep = common.Report('C14', 'quick')
+        seq_tag_list_linearizable(rep)
+        print('VIOLATION reproduced' if rep.violations else 'property holds on this input')
+        return 1 if rep.violations else 0
     out = run_one((r['scenario'], r['seed']))
     keys = ('problems', 'client_tags', 'broker_tags', 'consumer_keyerror', 'consumer_alive', 'thread_excs')
     print({k: out.get(k) for k in keys})
